@@ -253,6 +253,8 @@ def run_shard(spec, mode=None):
                                     "mk-df-2/frame.csv", "mk-dict-2/d.txt", "lit-abc/t.json", "mk-bytes-2/b.txt",
                                     "lit-a/vol/cat-b/v.txt", "one/vol/w.json", "one/nocache/add-2/n.txt",
                                     "lit-%EF%BB%BFbom/ident", "lit-%EF%BB%BF%EF%BB%BFx/cat-%0A", "lit-~.lead/cat-tail~.",
+                                    # an in-place mutator downstream of a cached value made of containers within containers
+                                    "mk-tlist-2/deepmut", "mk-matrix-2/deepmut/ident", "mk-lod-2/deepmut", "mk-nested/deepmut",
                                     # longer than any key width a back-end may assume; its last prefixes share 2000 characters
                                     "lit-a/" + "/".join("cat-%s%02d" % ("x" * 150, jj) for jj in range(14))]):
                 stats["hist_id"] = "%s.fixed%d" % (spec["rep"], j)
